@@ -186,8 +186,8 @@ def generate_dependent_dispatch(tup, handlers, next_call, slf, name, err, nerr):
     def argprovide(x):
         return f"ARG{x}" if isinstance(x, int) else f"{x}={x}"
 
-    def codegen(typ, arg):
-        cg = generate_checking_code(typ)
+    def codegen(typ, arg, argtype):
+        cg = generate_checking_code(typ, argtype)
         return cg.template.format(
             arg=arg, **{k: ndb[v] for k, v in cg.substitutions.items()}
         )
@@ -232,7 +232,9 @@ def generate_dependent_dispatch(tup, handlers, next_call, slf, name, err, nerr):
         if len(relevant) > 1:
             # The keyexpr method only works if there is only one condition to check.
             keyexpr = keyed = None
-        codes = [f"({codegen(types[k], argname(k))})" for k in relevant]
+        codes = [
+            f"({codegen(types[k], argname(k), tup[k])})" for k in relevant
+        ]
         conj = " and ".join(codes)
         if not conj:  # pragma: no cover
             # Not sure if this can happen
